@@ -32,6 +32,9 @@ def run(ctx, replay=None):
     else:
         kernlib.mc_replay(ctx, "KernelMC_c05.cfg", {"MaxOps = 3": "MaxOps = 4", "MaxEv = 7": "MaxEv = 7", "MaxKids = 2": "MaxKids = 3"},
                           label="KernelMC/c05 2x4 kids3")
+        # beyond the exhaustive bound: random deep behaviours of the same specification (TLC -simulate), replayed likewise
+        kernlib.mc_replay(ctx, "KernelMC_c05.cfg", {"MaxProc = 2": "MaxProc = 3", "MaxOps = 3": "MaxOps = 5", "MaxEv = 7": "MaxEv = 16", "MaxKids = 2": "MaxKids = 3"},
+                          label="KernelMC/c05 simulate 4 procs x 4-5 ops", simulate=4000, depth=400)
         kernlib.gen_validate(ctx, 20000, KINDS)
         kernlib.gen_validate(ctx, 10000, dict(KINDS, condnoprobe=4), plan_kinds={"run": 1, "step": 3}, max_plan=6,
                              orphan_finding="F19b", label="generated-unprobed-conditions")
